@@ -6,6 +6,64 @@ from vlib.chrunner import Cond
 PROP = "C06"
 
 
+TORTURE = ["", " ", "plain", "quote\"s and 'apostrophes'", "back\\slash", "tab\tnewline\ncr\r", "\u0000\u001f control", "caf\u00e9", "cafe\u0301 (combining)",
+           "\u212b \u2126 \u212a (compatibility)", "\u2028\u2029 separators", "\U0001F600 astral",
+           "</script> & <tags>", "{\"json\": [1, 2]}", "\ufeff bom", "\u00a0nbsp", "\uffff"]
+
+
+def native_json_corpus():
+    """Concrete trees with awkward Unicode in every text field through the REAL json module (the stub's trusted base is
+    exercised here; labelled as a concrete corpus, not a solver verdict)."""
+    import json as real_json
+    from metapype.model import metapype_io, mp_io
+    from metapype.model.node import Node
+    from harness.hlib import build, nodes, snap, SHAPES
+    old_a, old_b = metapype_io.json, mp_io.json
+    metapype_io.json = mp_io.json = real_json
+    bad = []
+    n = 0
+    try:
+        for i, txt in enumerate(TORTURE):
+            for fld in range(6):
+                Node.store.clear()
+                root = build(SHAPES[5], "n")
+                t = nodes(root)[(i + fld) % 4]
+                if fld == 0:
+                    t.content = txt
+                elif fld == 1:
+                    t.tail = txt
+                elif fld == 2:
+                    t.prefix = txt
+                elif fld == 3:
+                    t.add_attribute("k", txt)
+                elif fld == 4:
+                    t.add_extras("x:e", txt)
+                else:
+                    for x in nodes(t):
+                        x.nsmap = dict(x.nsmap, p=txt)
+                n += 1
+                before = snap(root)
+                try:
+                    text = metapype_io.to_json(root)
+                    Node.store.clear()
+                    back = metapype_io.from_json(text)
+                    if snap(back) != before:
+                        bad.append("field %d text %r: reloaded tree differs" % (fld, txt))
+                    elif metapype_io.to_json(back) != text:
+                        bad.append("field %d text %r: re-serialised document differs" % (fld, txt))
+                    if fld in (0, 3):
+                        ltext = mp_io.to_json(back)
+                        Node.store.clear()
+                        lb = mp_io.from_json(real_json.loads(ltext))
+                        if (lb.content, dict(lb.attributes)) != (back.content, dict(back.attributes)) or mp_io.to_json(lb) != ltext:
+                            bad.append("legacy codec, field %d text %r: round trip differs" % (fld, txt))
+                except Exception as e:
+                    bad.append("field %d text %r: %s: %s" % (fld, txt, type(e).__name__, e))
+    finally:
+        metapype_io.json, mp_io.json = old_a, old_b
+    return n, bad
+
+
 def run(tier, only=None):
     rep = Report(PROP, tier, "CrossHair symbolic execution of the JSON codecs (current, legacy, upgrade converter) with json replaced by a deep-copy contract stub; z3 decides each path")
     shapes = [1, 5] if tier == "quick" else [0, 1, 2, 3, 5, 6, 7, 9]
@@ -34,6 +92,10 @@ def run(tier, only=None):
     rep.functions.update(["metapype.model.metapype_io._serialize", "metapype.model.metapype_io._from_dict", "metapype.model.metapype_io.to_json",
                           "metapype.model.metapype_io.from_json", "metapype.model.mp_io.objectify", "metapype.model.mp_io.to_json",
                           "metapype.model.mp_io.from_json", "utils.convert.to_20210209", "metapype.model.node.Node.add_child", "metapype.model.node.Node.add_namespace"])
+    n, bad = native_json_corpus()
+    rep.extra["real_json_corpus"] = {"documents": n, "kind": "concrete trees with awkward Unicode through the real json module (exercises the stub's trusted base; not a solver verdict)"}
+    for b in bad[:5]:
+        rep.violation({"kind": "real_json_corpus", "what": b[:60]}, "real json round trip: " + b, {"harness": "c06corpus", "what": b})
     chrunner.discharge(conds, rep, PROP)
     rep.extra["source_fingerprint"] = common.src_fingerprint()
     for r in rep.extra["conditions"][:6]:
@@ -42,4 +104,7 @@ def run(tier, only=None):
 
 
 def replay(payload):
+    if payload.get("harness") == "c06corpus":
+        n, bad = native_json_corpus()
+        return bool(bad), (bad[0] if bad else "every corpus document round-trips")
     return chrunner.generic_replay(payload)
